@@ -38,23 +38,47 @@ def speed_fn(pts):
     return lambda t: math.hypot(ev(dx, t), ev(dy, t))
 
 
+def speed_breaks(pts, t0, t1):
+    """parameters in (t0, t1) where the speed has a critical point (exact roots of d/dt |c'|^2 = 2 (x'x'' + y'y''), isolated by Sturm sequences): at a
+    (near-)cusp the integrand |c'| has a (near-)kink there, and a composite rule that does not break at it converges so slowly that two
+    successive refinements can agree by accident (this happened: a collinear cubic with a cusp at t = 0.0012 was measured 3.9e-5 short)"""
+    px, py = O.seg_polys(pts)
+    dx, dy = O.pderiv(px), O.pderiv(py)
+    if not dx and not dy:
+        return []
+    g = O.padd(O.pmul(dx, O.pderiv(dx)) if dx else [], O.pmul(dy, O.pderiv(dy)) if dy else [])
+    g = O.ptrim(g)
+    if len(g) <= 1:
+        return []
+    out = []
+    for lo, hi in O.isolate_roots(g, Fr(t0), Fr(t1), Fr(1, 2 ** 60)):
+        t = float((lo + hi) / 2)
+        if t0 < t < t1:
+            out.append(t)
+    return sorted(set(out))
+
+
 def true_length(pts, t0=0.0, t1=1.0):
-    """(L, converged)"""
+    """(L, converged): composite 8-point Gauss-Legendre on panels that break at the critical points of the speed, doubled until THREE successive
+    refinements agree to 1e-13"""
     sp = speed_fn(pts)
-    prev = None
-    for k in range(3, 15):
+    brk = [t0] + (speed_breaks(pts, t0, t1) if t1 > t0 else []) + [t1]
+    hist = []
+    for k in range(2, 14):
         n = 1 << k
-        h = (t1 - t0) / n
         tot = 0.0
-        for i in range(n):
-            a = t0 + i * h
-            for w, x in GL8:
-                tot += w * sp(a + 0.5 * h * (x + 1.0))
-        tot *= 0.5 * h
-        if prev is not None and abs(tot - prev) <= 1e-13 * max(abs(tot), 1e-300):
+        for a0, b0 in zip(brk, brk[1:]):
+            h = (b0 - a0) / n
+            part = 0.0
+            for i in range(n):
+                a = a0 + i * h
+                for w, x in GL8:
+                    part += w * sp(a + 0.5 * h * (x + 1.0))
+            tot += part * 0.5 * h
+        hist.append(tot)
+        if len(hist) >= 3 and all(abs(hist[-1] - v) <= 1e-13 * max(abs(tot), 1e-300) for v in hist[-3:-1]):
             return tot, True
-        prev = tot
-    return prev, False
+    return hist[-1], False
 
 
 def enclosure(pts, levels=8):
